@@ -104,10 +104,54 @@ Definition dev_aligned_b (d : feature_data) : bool :=
   | None => true
   end.
 
+(* Exact ties between the target rates of two groups (on train or on dev).  The code compares
+   `train_rates.sort_values("target_rate").index` with the same on dev; pandas sorts with numpy's
+   quicksort, which is NOT stable (AVX-512 sorting networks are used even for five rows), so the order of
+   two exactly tied groups - and with it the verdict of the rank test - is implementation defined.  A
+   candidate is rank-ambiguous when it passes every other test, has such a tie, and shows no STRICT
+   inversion between train and dev.  When a rank-ambiguous candidate exists at a stage the model
+   explores, a disagreement is reported as "agree up to an exact tie" (code 4). *)
+Fixpoint has_tie (rs : list fl) : bool :=
+  match rs with [] => false | x :: t => existsb (feqb x) t || has_tie t end.
+
+Definition no_strict_inversion (a b : list fl) : bool :=
+  let ab := combine a b in
+  forallb (fun p => forallb (fun q => negb (fltb (fst p) (fst q) && fltb (snd q) (snd p))) ab) ab.
+
+Definition rank_ambiguous (cf : cfg) (train : list ymset) (dev : option (list ymset)) (c : grouping) : bool :=
+  match dev with
+  | None => false
+  | Some d =>
+      let rt := rows_of train c in
+      let rd := rows_of d c in
+      rows_ok (min_freq_mod cf) rt && rows_ok (min_freq_mod cf) rd
+      && (has_tie (map rate rt) || has_tie (map rate rd))
+      && no_strict_inversion (map rate rt) (map rate rd)
+  end.
+
+Definition tie_dependent (cf : cfg) (d : feature_data) : bool :=
+  let m := length (d_train d) in
+  if (m <=? 1)%nat then false
+  else
+    let cands := consecutive_combinations (seq 0 m) (max_n_mod cf) in
+    existsb (rank_ambiguous cf (d_train d) (d_dev d)) cands
+    || (two_stage cf d
+        && match stage cf (d_train d) (d_dev d) cands with
+           | Some c1 =>
+               let k := length c1 in
+               let '(t2, d2) := stage2_inputs d c1 in
+               existsb (rank_ambiguous cf t2 d2) (nan_combinations (seq 0 k) k (max_n_mod cf))
+           | None => false
+           end).
+
 Record c01case := mkC01 { k_cfg : cfg; k_data : feature_data; k_impl : outcome }.
 
 Definition verdict (c : c01case) : nat :=
   if negb (dev_aligned_b (k_data c)) then 3%nat
-  else if negb (C01_b (k_cfg c) (k_data c) (k_impl c) && C02_b (k_cfg c) (k_data c) (k_impl c)) then 2%nat
+  else if negb (C01_b (k_cfg c) (k_data c) (k_impl c) && C02_b (k_cfg c) (k_data c) (k_impl c)) then
+    (if tie_dependent (k_cfg c) (k_data c) then 4%nat else 2%nat)
   else if outcome_eqb (carve (k_cfg c) (k_data c)) (k_impl c) then 0%nat
-  else if unique_optimum (k_cfg c) (k_data c) then 1%nat else 4%nat.
+  else if unique_optimum (k_cfg c) (k_data c) && negb (tie_dependent (k_cfg c) (k_data c)) then 1%nat else 4%nat.
+
+(* used by the harness to report how many cases carry such a tie *)
+Definition tie_flag (c : c01case) : nat := if tie_dependent (k_cfg c) (k_data c) then 1%nat else 0%nat.
